@@ -300,6 +300,20 @@ class Grow:
                                 out.append((s3, val, ta or tb))
                 return out
             raise Unanalysable(f"method .{m}()")
+        if t == "Tuple":
+            acc = [(st, [])]
+            for x in e["elems"]:
+                acc = [(s2, vs + [v]) for s1, vs in acc for s2, v, _ in self.ev(x, s1)]
+            return [(s1, ("tup", vs), None) for s1, vs in acc]
+        if (t == "Binary" and e["op"] in ("<", "<=", ">", ">=", "==", "!=", "&&", "||")) or (t == "Unary" and e["op"] == "!"):
+            return [(s1, truth, "b") for s1, truth in self.cond(e, st)]
+        if t == "Lit" and e.get("kind") == "bool":
+            return [(st, bool(e["value"]), "b")]
+        if t == "Return":
+            if e.get("expr") is not None:
+                raise Unanalysable("return with a value")
+            self.ret(st, e)
+            return []
         if t == "If":
             out = []
             for s1, truth in self.cond(e["cond"], st):
@@ -344,16 +358,29 @@ class Grow:
                     # the arm is taken when every literal sub-pattern matches (and the guard holds)
                     taken = r.fork()
                     lits = []
+                    mismatch = False
                     for p_, v in zip(pats, vals):
                         if p_["t"] == "PWild" or (p_["t"] == "PIdent" and p_.get("sub") is None):
                             if p_["t"] == "PIdent":
                                 taken.env[p_["name"]] = v
                             continue
+                        if p_["t"] == "PLit" and p_["lit"].get("kind") == "bool":
+                            if not isinstance(v, bool):
+                                raise Unanalysable("boolean pattern against a number")
+                            if bool(p_["lit"]["value"]) != v:
+                                mismatch = True
+                            continue
+                        if isinstance(v, bool):
+                            raise Unanalysable("numeric pattern against a boolean")
                         if p_["t"] == "PLit" and p_["lit"].get("kind") == "int":
                             k = int(p_["lit"]["digits"].replace("_", ""))
                             lits.append((v, k))
                             continue
                         raise Unanalysable(f"pattern `{self.src(p_)}`")
+                    if mismatch:
+                        # a concrete boolean component differs: the arm is not taken in this state
+                        nxt_remaining.append(r)
+                        continue
                     for v, k in lits:
                         taken.facts += [v - k, Lin(k) - v]
                     taken.note.append(f"arm `{self.src(arm['pat'])}`")
@@ -434,6 +461,17 @@ class Grow:
 
     def stmt(self, s_, st):
         t = s_["t"]
+        if t == "Local" and s_["pat"]["t"] == "PTuple" and s_.get("init") is not None and all(p_["t"] in ("PIdent", "PWild") for p_ in s_["pat"]["elems"]):
+            out = []
+            for s1, v, _ in self.ev(s_["init"], st):
+                if not (isinstance(v, tuple) and v[0] == "tup" and len(v[1]) == len(s_["pat"]["elems"])):
+                    raise Unanalysable(f"statement `{self.src(s_)}`")
+                for p_, x in zip(s_["pat"]["elems"], v[1]):
+                    if p_["t"] == "PIdent":
+                        s1.env[p_["name"]] = x
+                        s1.ty[p_["name"]] = "u"
+                out.append(s1)
+            return out
         if t == "Local":
             if s_["pat"]["t"] != "PIdent" or s_.get("init") is None:
                 raise Unanalysable(f"statement `{self.src(s_)}`")
